@@ -6,6 +6,7 @@ import (
 	"time"
 
 	"github.com/aukilabs/go-tooling/pkg/errors"
+	"github.com/aukilabs/go-tooling/pkg/logs"
 	httpcmn "github.com/aukilabs/hagall-common/http"
 	"github.com/aukilabs/hagall-common/messages/hagallpb"
 	"github.com/aukilabs/hagall-common/ncsclient"
@@ -892,7 +893,10 @@ func (h *RealtimeHandler) HandleReceipt(ctx context.Context, respond hwebsocket.
 			RequestId: req.RequestId,
 			Code:      hagallpb.ErrorCode_ERROR_CODE_BAD_REQUEST,
 		})
-		return errors.New("zero length receipt value detected")
+		// The request is answered; returning an error here would tear the
+		// connection down and race with the delivery of that answer.
+		logs.WithClientID(h.clientID).Warn(errors.New("zero length receipt value detected"))
+		return nil
 	}
 
 	payload := ncsclient.ReceiptPayload{
@@ -916,7 +920,7 @@ func (h *RealtimeHandler) HandleReceipt(ctx context.Context, respond hwebsocket.
 			RequestId: req.RequestId,
 			Code:      hagallpb.ErrorCode_ERROR_CODE_SERVER_TOO_BUSY,
 		})
-		return errors.New("ReceiptChan full")
+		logs.WithClientID(h.clientID).Warn(errors.New("ReceiptChan full"))
 	}
 
 	return nil
